@@ -19,6 +19,10 @@ pub struct Case {
     /// receiver for the setters
     pub recv: Inst,
     pub off: i32,
+    /// != 0 (DateTime setters only): the receiver carries its offset as `Offset::Local` under an
+    /// injected zone whose offset at this pinned Unix time is `off`
+    #[serde(default)]
+    pub local_now: i64,
 }
 
 const DAYNS: i128 = 86_400_000_000_000;
@@ -134,6 +138,12 @@ fn model(c: &Case) -> Option<i128> {
 }
 
 fn call(c: &Case, a: &[i64]) -> Result<Result<i128, AstrolabeError>, PanicInfo> {
+    let r = call_pinned(c, a);
+    unpin_local();
+    r
+}
+
+fn call_pinned(c: &Case, a: &[i64]) -> Result<Result<i128, AstrolabeError>, PanicInfo> {
     catch(|| -> Result<i128, AstrolabeError> {
         Ok(match c.api {
             0 => rd_date(&Date::from_ymd(a[0] as i32, a[1] as u32, a[2] as u32)?) as i128 * DAYNS,
@@ -146,7 +156,13 @@ fn call(c: &Case, a: &[i64]) -> Result<Result<i128, AstrolabeError>, PanicInfo> 
             7 => Offset::from_seconds(a[0] as i32)?.resolve() as i128,
             8 => Offset::from_hms(a[0] as i32, a[1] as u32, a[2] as u32)?.resolve() as i128,
             9 => {
-                let r = mk_dt_off(c.recv.i(), c.off);
+                let local = c.local_now != 0 && local_now_ok(c.local_now) && c.recv.day > cal::MIN_DAY + 3 && c.recv.day < cal::MAX_DAY - 3;
+                let r = if local {
+                    pin_local(c.off, c.local_now);
+                    mk_dt(c.recv.i()).set_offset(Offset::Local)
+                } else {
+                    mk_dt_off(c.recv.i(), c.off)
+                };
                 let r = match c.field {
                     0 => r.set_year(a[0] as i32)?,
                     1 => r.set_month(a[0] as u32)?,
@@ -234,7 +250,8 @@ impl Prop for Ctors {
             11 => u.below(6)? as u8,
             _ => 0,
         };
-        let mut c = Case { api, field, args: vec![], recv, off };
+        let local_now = if api == 9 && u.coin(1, 6)? { u.range_i64(-1_900_000_000, 2_100_000_000)? } else { 0 };
+        let mut c = Case { api, field, args: vec![], recv, off, local_now };
         let specs = arg_specs(&c);
         // nominal ranges per message name
         let lf = tl::fields(recv.i() + off as i128 * tl::NS);
@@ -341,7 +358,10 @@ impl Prop for Ctors {
                 cx.nt("range_end_year");
             }
         }
-        let what = format!("{}({:?}){}", name, c.args, if c.api >= 9 { format!(" on {} [{}]", fmt_instant(c.recv.i()), c.off) } else { String::new() });
+        if c.api == 9 && c.local_now != 0 && local_now_ok(c.local_now) {
+            cx.nt("offset_carried_as_Offset::Local");
+        }
+        let what = format!("{}({:?}){}{}", name, c.args, if c.api >= 9 { format!(" on {} [{}]", fmt_instant(c.recv.i()), c.off) } else { String::new() }, if c.local_now != 0 { " carried as Offset::Local" } else { "" });
         let sig = format!("c15.{}", name.replace("::", "_").to_lowercase());
         let err = match (want, call(c, &c.args)) {
             (_, Err(p)) => return fail(&format!("{}.panic", sig), format!("{} returns a Result", what), p.short()),
